@@ -56,7 +56,7 @@ fn exec(run: &mut Run, op: &Op) -> (Out, Option<(uuid::Uuid, uuid::Uuid, Vec<u8>
                 Err(e) => (Out::Err(format!("{e}").lines().next().unwrap_or("").to_string()), None),
             }
         }
-        Op::Create(_) => (Out::Ok("skip".into()), None),
+        Op::Create(_) | Op::Age(..) => (Out::Ok("skip".into()), None),
     }
 }
 
@@ -213,7 +213,14 @@ pub fn leg_faults(thorough: bool) -> Value {
             }
         }
     }
-    violations.truncate(5);
+    // keep at most 3 reports per distinct tag set
+    let mut kept: Vec<Value> = vec![];
+    for v in violations.into_iter() {
+        if kept.iter().filter(|x| x["tags"] == v["tags"]).count() < 3 {
+            kept.push(v);
+        }
+    }
+    let violations = kept;
     json!({"leg": "faults", "cases": cases, "cases_with_injected_fault": injected, "violations": violations, "samples": samples,
            "bound": format!("SQLite only; {} seed histories x 6 target requests x every storage call (begin, reads, writes, commit) failing before / after effect{}", if thorough { "all" } else { "4" }, if thorough { " + all double faults (before effect)" } else { "" })})
 }
